@@ -93,6 +93,15 @@ def view (s : St) : View :=
   { working := s.working, stops := s.stops.length, active := s.live.length,
     flags := s.counters.map (· ≠ 0), panics := s.panics }
 
+/-- the property itself on what is observed after a quiescent check (a group that is exactly one
+    `checkProtocols` call with nothing concurrent): with `np` registered protocols and `workers`
+    registered workers, the scheduler works iff no latch is executing; stopped ⇒ no worker runs
+    and no cancel function is kept; working ⇒ exactly one running worker per registered worker. -/
+def quiescentCheckOk (np workers : Nat) (v : View) : Bool :=
+  (np = 0 || (v.working == !v.flags.any id)) &&
+  (v.working || (v.active == 0 && v.stops == 0)) &&
+  (!v.working || (v.active == workers && v.stops == workers))
+
 /-! ## concurrent groups: every interleaving of the atomic steps -/
 
 inductive Act where
